@@ -124,7 +124,7 @@ theorem nextToken_eof_val {b : Bytes} {s s' : LexState} {t : Token}
 def GoodErr (n : Nat) : PErr → Prop
   | .lex e => IsFail n e
   | .fail p k => p ≤ n ∨ k = .fbrace     -- the f-string brace error is reported relative to the token
-  | .runtime s => s = 0
+  | .runtime s => s = 0 ∧ C19.concatGuardsBareFString = false   -- only the unrepaired concatStrings
   | .outOfFuel => False
 
 /-- `m` run from `l` fails well or ends in a state satisfying `Q`. -/
@@ -423,23 +423,25 @@ theorem fstringVars_ok (fuel : Nat) : ∀ (s : List UInt8) (pos cnt : Nat), s.le
 theorem concat_good {k1 k2 : VKind} (h1 : k1 ≠ .other) (h2 : k2 ≠ .other) :
     match concatKinds k1 k2 with
     | .ok r => r ≠ .other
-    | .error e => e = .runtime 0 := by
+    | .error e => e = .runtime 0 ∧ C19.concatGuardsBareFString = false := by
+  unfold concatKinds
+  generalize C19.concatGuardsBareFString = g
   cases k1 with
   | other => exact absurd rfl h1
   | plain =>
     cases k2 with
     | other => exact absurd rfl h2
-    | plain => simp [concatKinds]
+    | plain => simp [concatKindsWith]
     | fstr v =>
-      simp only [concatKinds]
-      by_cases hv : v = 0
-      · rw [if_pos hv]
+      simp only [concatKindsWith]
+      by_cases hv : v = 0 ∧ g = false
+      · rw [if_pos hv]; exact ⟨rfl, hv.2⟩
       · rw [if_neg hv]; simp
   | fstr m =>
     cases k2 with
     | other => exact absurd rfl h2
-    | plain => simp [concatKinds]
-    | fstr v => simp only [concatKinds]; split <;> simp
+    | plain => simp [concatKindsWith]
+    | fstr v => simp only [concatKindsWith]; split <;> simp
 
 theorem isOperator_ne {v : Bytes} (h : isOperator v = true) : v ≠ #[] := by
   intro hv; subst hv; revert h; decide
@@ -857,7 +859,7 @@ theorem value_step : ∀ k l, St b n k l → need k 1 ≤ fuel + 1 →
       · rename_i e he
         rw [he] at hg
         show GoodErr n e
-        rw [hg]; rfl
+        rw [hg.1]; exact ⟨rfl, hg.2⟩
     · refine Safe.thenN (ih.valueTail _ l1 h1 (by fuel_ok)) ?_
       intro _ l2 h2
       exact Safe.pure ⟨h2.toS (by omega), fun _ => hkind⟩
